@@ -157,6 +157,10 @@ def run(tier, replay=None):
                 for mode in (0, 1):
                     sysc.append({"id": "y%d_%d" % (nst, mode), "extra": {"order": 0, "noscreen": mode}, "shells": sh_, "ecps": [u], "_sa": [0, 0, 1], "_ea": [0]})
                 nst += 1
+                # the same system with the basis handed over in two calls (the diffuse shells first, the compact one afterwards)
+                for mode in (0, 1):
+                    sysc.append({"id": "y%d_%d" % (nst, mode), "extra": {"order": 0, "noscreen": mode, "split_basis": 2}, "shells": sh_, "ecps": [u], "_sa": [0, 0, 1], "_ea": [0]})
+                nst += 1
         # moved systems: the integrator is initialised at a stretched geometry (every shell/ECP pair beyond the screening radius, or
         # compact) and moved to the geometry of the case with the update routines before computing: the screens must decide from
         # the CURRENT coordinates (screens on, after the move) vs screens off
@@ -204,7 +208,7 @@ def run(tier, replay=None):
             res.known("F-C12-screen: in %d shell pairs the primitive estimate screen alone discards more than the bound (largest %s: %.2e vs %.2e)" % (len(known), w[0], w[1], w[2]))
             res.cov["known_finding_cases"] = len(known)
         for c, msg in viol[:3]:
-            res.violation("screen-" + c["id"], {"theorem_or_correspondence": "|screens on - screens off| <= 1e-9 x prod sum|c|", "input": {k: v for k, v in c.items() if not k.startswith("_") and k != "extra"}, "observed": msg, "n": len(viol)})
+            res.violation("screen-" + c["id"], {"theorem_or_correspondence": "|screens on - screens off| <= 1e-9 x prod sum|c|", "input": {k: (v if k != "extra" else {k2: v2 for k2, v2 in v.items() if k2 in ("split_basis", "init_stretch", "kind")}) for k, v in c.items() if not k.startswith("_")}, "observed": msg, "n": len(viol)})
     finally:
         shutil.rmtree(tmp, ignore_errors=True)
     res.assumptions += ["soundness of the estimates themselves is measured, not proved; only the additivity of the API screen is a theorem",
